@@ -1,5 +1,6 @@
 SPECIFICATION MCSpec
-CONSTANTS Role = FALSE
+CONSTANTS
+  ReadMax = 0 Role = FALSE
  PeerBudget = 3
  UserBudget = 3
  Faults = FALSE
